@@ -246,6 +246,7 @@ func runHistory(c *run.Ctx, h []attempt, cc configCase, pending int) {
 	}
 	successes, failures := 0, 0
 	lastSuccess := false
+	attSuccess, attSeq := map[int]bool{}, map[int]int64{}
 	for ai, a := range h {
 		if online {
 			// the connection gets lost first
@@ -275,8 +276,12 @@ func runHistory(c *run.Ctx, h []attempt, cc configCase, pending int) {
 		n0 := d.ReadCount()
 		resent0 := w.PointCount("connect.resent")
 		var ro *reqObs
-		if !d.GrantWhenPaused(sim.StepTimeout) {
-			stuck("read loop not paused")
+		if !d.GrantWhenPaused(4 * sim.StepTimeout) {
+			// ReadSlices had returned; a read loop that does not get to its pause is
+			// starved, not wedged (the grant went out regardless, so the condition
+			// can not be looked at again)
+			c.Inconclusive("read loop slow to pause between attempts")
+			c.Spoiled()
 			return
 		}
 		gate := fmt.Sprint("phase", ai)
@@ -347,6 +352,23 @@ func runHistory(c *run.Ctx, h []attempt, cc configCase, pending int) {
 		} else if len(reads) > 0 {
 			outcomeSeq = reads[len(reads)-1].Seq
 		}
+		if !success && len(reads) > 0 {
+			// the failure is decided by the last dial or connection event before
+			// ReadSlices reports it; waiting requests are released from then on
+			w.Mu.Lock()
+			for i := len(w.Trace) - 1; i >= 0; i-- {
+				e := w.Trace[i]
+				if e.Seq >= outcomeSeq {
+					continue
+				}
+				if e.Kind == "dial.ret" || e.Kind == "read" || e.Kind == "write" || e.Kind == "close" {
+					outcomeSeq = e.Seq
+					break
+				}
+			}
+			w.Mu.Unlock()
+		}
+		attSuccess[ai], attSeq[ai] = success, outcomeSeq
 		if ro != nil {
 			ro.outcome, ro.success, ro.downBefore = outcomeSeq, success, downBefore
 		}
@@ -488,14 +510,26 @@ func runHistory(c *run.Ctx, h []attempt, cc configCase, pending int) {
 					}
 					break
 				}
-				if ro.call.RetSeq < ro.outcome {
-					c.Violate("request-did-not-await-connect", fmt.Sprintf("%s issued during the %s phase of attempt %d returned (%v) at #%d before the attempt's outcome at #%d", ro.a.Req, ro.a.Phase, ro.att, e, ro.call.RetSeq, ro.outcome), detail())
+				// A waiting request polls the connect state; it may sit out a failed
+				// attempt and be served by the retry. Its result is judged against
+				// every attempt from its own on that was decided before it returned.
+				legalNil, legalDown := false, false
+				for j, sq := range attSeq {
+					if j >= ro.att && sq < ro.call.RetSeq {
+						if attSuccess[j] {
+							legalNil = true
+						} else {
+							legalDown = true
+						}
+					}
 				}
-				if ro.success && e != nil {
-					c.Violate("request-failed-after-successful-connect", fmt.Sprintf("%s issued during the %s phase of successful attempt %d returned %q", ro.a.Req, ro.a.Phase, ro.att, e), detail())
-				}
-				if !ro.success && !errors.Is(e, mqtt.ErrDown) {
-					c.Violate("request-not-errdown-after-failed-connect", fmt.Sprintf("%s issued during the %s phase of failed attempt %d (%s) returned %v, want ErrDown", ro.a.Req, ro.a.Phase, ro.att, h[ro.att], e), detail())
+				switch {
+				case e == nil && !legalNil:
+					c.Violate("request-succeeded-without-connection", fmt.Sprintf("%s issued during the %s phase of attempt %d returned nil at #%d without a connect attempt having succeeded by then", ro.a.Req, ro.a.Phase, ro.att, ro.call.RetSeq), detail())
+				case e != nil && errors.Is(e, mqtt.ErrDown) && !legalDown:
+					c.Violate("request-did-not-await-connect", fmt.Sprintf("%s issued during the %s phase of attempt %d returned (%v) at #%d before any attempt from that one on had failed (its outcome at #%d)", ro.a.Req, ro.a.Phase, ro.att, e, ro.call.RetSeq, ro.outcome), detail())
+				case e != nil && !errors.Is(e, mqtt.ErrDown):
+					c.Violate("request-not-errdown-after-failed-connect", fmt.Sprintf("%s issued during the %s phase of attempt %d (%s) returned %v, want nil or ErrDown", ro.a.Req, ro.a.Phase, ro.att, h[ro.att], e), detail())
 				}
 			case "after":
 				if ro.success && e != nil {
